@@ -452,6 +452,25 @@ func (s *Server) dispatch(c *Ctx, name string) (Reply, bool) {
 	return r, true
 }
 
+// DescribeTracking renders the tracking mode of a session: off | optin | optout | bcast | default.
+func (s *Server) DescribeTracking(ss *Session) string {
+	t := ss.Track
+	switch {
+	case !t.on:
+		return "off"
+	case t.bcast:
+		return "bcast"
+	case t.optin:
+		return "optin"
+	case t.optout:
+		return "optout"
+	}
+	return "default"
+}
+
+// TrackingOf reports whether the session tracks in the given mode.
+func (s *Server) TrackingOf(ss *Session, mode string) bool { return s.DescribeTracking(ss) == mode }
+
 // AbortTxn silently discards the transaction queued on ss (as if a WATCHed key had changed): the
 // caller then answers EXEC with a nil array.
 func (s *Server) AbortTxn(ss *Session) {
